@@ -118,6 +118,23 @@ CLAIMED.update({
     ),
 })
 
+CLAIMED.update({
+    "C12": dict(
+        technique="inverse-pair (sibling) agreement over normalised ASTs, coordinate-frame typestate dataflow over the SRF/Krige/CondSRF pipelines, constant folding, swapped-argument lint over resolved call sites",
+        text="isometrize/anisometrize and the matrix builders are shown to be inverse pairs by construction (reversed order of paired inverse factors; diag(1,1/anis) vs diag(1,anis); Givens products on "
+        "opposite sides with negated angles over identical planes and alternating signs; proper plane rotations); every generator/distance/drift/trend sink in the pipelines receives coordinates in the frame it "
+        "expects and positions are isometrized exactly once; padding conventions of ratios/angles; no swapped arguments at 185 resolved call sites. Numerical orthogonality / pipeline equality are not decided.",
+        ref="DESIGN.md section 4 C12, section 3 E7/E8",
+    ),
+    "C13": dict(
+        technique="who-passes-what dataflow over all sphere-conversion call sites, forward/inverse sibling agreement, forcing-site checks (AST)",
+        text="Every one of the 8 call sites of latlon2pos/pos2latlon/chordal<->great-circle passes the caller's geo_scale; geo_scale and the latlon flag are forwarded along vario_estimate -> standard_bins and "
+        "Krige.set_condition -> vario_estimate; forward and inverse conversions agree on keywords, time handling (last ratio, divide/multiply, appended last), row conventions and inverse elementary functions; "
+        "lat-lon forcing sites (dim, spatial ratios, angles, chordal lags, radian bins, refused cases) are in place; ratios are only stored via set_len_anis. Round-trip identity as a value is not decided.",
+        ref="DESIGN.md section 4 C13",
+    ),
+})
+
 NOT_APPLICABLE = {
     "C01": "distributional property over seeds (ensemble mean/covariance at Monte-Carlo rate); no code-shape clause beyond those decided under C04/C11/C12 - needs sampling or quadrature, a different technique family",
 }
